@@ -58,9 +58,26 @@ func main() {
 		bw := bufio.NewWriter(&buf)
 		st(hx.NewRand(*seed), *tier, *n, bw)
 		bw.Flush()
-		for _, ln := range strings.Split(buf.String(), "\n") {
+		lines := strings.Split(buf.String(), "\n")
+		// a case of a stateful history (marked h0=<case id of its reset line>) is replayed with its history prefix
+		h0 := ""
+		for _, ln := range lines {
 			if strings.Contains(ln, " case="+*only+" ") {
+				for _, tok := range strings.Fields(ln) {
+					if strings.HasPrefix(tok, "h0=") {
+						h0 = tok
+					}
+				}
+			}
+		}
+		done := false
+		for _, ln := range lines {
+			hit := strings.Contains(ln, " case="+*only+" ")
+			if hit || (h0 != "" && !done && strings.Contains(ln, " "+h0+" ")) {
 				fmt.Fprintln(w, ln)
+			}
+			if hit {
+				done = true
 			}
 		}
 		w.Flush()
